@@ -6,10 +6,10 @@ E1 = {
  "C04": ("qos-delivery", "QoS1/2 delivery automaton on the decoded wire across reconnects/sessions"),
  "C05": ("inbound", "inbound publishes acked in order, QoS2 surfaced once"),
  "C06": ("packet-ids", "packet ids non-zero, unique in flight, never leaked (allocator preset at the wrap)"),
- "C07": ("handshake", "one faithful CONNECT first, nothing before CONNACK / after DISCONNECT, negotiated settings"),
+ "C07": ("handshake", "one faithful CONNECT first, nothing before CONNACK / after DISCONNECT; plus an exhaustive CONNACK-presence x connect-options grid through the crate's settings merge against a reference merge"),
  "C08": ("service-time", "no lost wake-up, bounded progress from every state, no idle spin"),
  "C09": ("flow-control", "receive maximum and one-at-a-time drain never exceeded"),
- "C10": ("ordering", "submission order, retransmissions first"),
+ "C10": ("ordering", "submission order, retransmissions first (incl. Receive Maximum shrinking on the resumed connection); plus the in-place queue sort over every physical ring-buffer layout up to capacity 9/17"),
  "C11": ("robustness", "hostile server / odd timing gives clean errors, never a panic; compliant server never accused"),
  "C14": ("keepalive", "keep-alive gaps and ping deadlines on the virtual clock"),
  "C15": ("offline", "offline-queue policy table in both directions"),
